@@ -331,6 +331,12 @@ func genC14(r *rand.Rand, w *W) [][]string {
 		case 2:
 			host = "[" + host + "]" + pick(r, []string{"", ":443"})
 		}
+		if r.Intn(12) == 0 {
+			// hosts whose lower-case form has a different length in UTF-8 (Kelvin sign, dotted capital I), with ports
+			host = pick(r, []string{"\u212a\u212a", "\u212aexample.com", "\u0130.example.com", "a\u212ab", "\u212a"}) +
+				pick(r, []string{":80", ":", ":8", "", ":8080"})
+			simple = false
+		}
 		var init []string
 		if r.Intn(3) == 0 {
 			init = []string{"zz", "keep"}
